@@ -66,86 +66,90 @@ def run(run):
         run.holds("C17.R6", run.project.fn(FT + ".FitsTiler.tile"), None, "toasty.fits_tiler keeps no module-level / class-level table (%d uses); positive example flagged" % n_tab)
 
 
-def _r1_paths(run):
+SCHEMES = ("L/Y/YX", "LXY")            # the two naming schemes PyramidIO documents (confirmed by hand)
+
+
+def _r1_paths(run, rule="C17.R1"):
+    """Decided on values, not on the shape of the dispatch: for each naming scheme the constructor's state is substituted into
+    tile_path (helpers, bound-method slots and tables followed) and the resulting path expression is evaluated for a grid of
+    positions and formats; it must be  <base>/<WTML template of get_path_scheme() with {1}=level, {2}=x, {3}=y>.<format> , and
+    different positions must get different paths."""
     project = run.project
-    ev = sym.make_evaluator(project, PYR, [])
+    from sa.teval import teval, UNKNOWN, RAISES
     init = project.fn(PYR + ".PyramidIO.__init__")
-    run.note_func(init)
-    r = ev.run(init.node)
-    pairs = {}
-    for e in r.events:
-        if e.kind == "store" and e.term[1][0][0] == "attr" and e.term[1][0][1] == ("sym", "self") and e.term[1][0][2] in ("_tile_path", "_scheme"):
-            conds = tuple(c for c in e.pc if c[0] != "loop")
-            pairs.setdefault(conds, {})[e.term[1][0][2]] = e.term[1][1]
-    # tile_path binding
     tp = project.fn(PYR + ".PyramidIO.tile_path")
-    run.note_func(tp)
-    rt = ev.run(tp.node)
-    pos = ("sym", tp.params()[1])
-    call = rt.returns[0][1] if len(rt.returns) == 1 else None
-    want_args = tuple(("call", ("sym", "str"), (("attr", pos, a),), ()) for a in ("n", "x", "y"))
-    if call is None or call[0] != "call" or call[1] != ("attr", ("sym", "self"), "_tile_path") or tuple(call[2]) != want_args:
-        got = [show(a) for a in call[2]] if call is not None and call[0] == "call" else "?"
-        run.violated("C17.R1", tp, None, "tile_path hands %s to the scheme's path builder; expected (str(pos.n), str(pos.x), str(pos.y)) = (level, ix, iy)" % got, kind="tile-path-binding")
-        return
-    kw = dict(call[3])
-    if kw.get("format") != ("sym", "format") or kw.get("makedirs") != ("sym", "makedirs"):
-        run.violated("C17.R1", tp, None, "tile_path does not forward format / makedirs to the path builder", kind="tile-path-kwargs")
-    else:
-        run.holds("C17.R1", tp, None, "tile_path -> builder(str(pos.n), str(pos.x), str(pos.y), format=format, makedirs=makedirs)")
-    n_schemes = 0
-    for conds, d in sorted(pairs.items(), key=repr):
-        if "_tile_path" not in d or "_scheme" not in d:
-            continue
-        n_schemes += 1
-        b = d["_tile_path"]
-        sch = d["_scheme"]
-        if b[0] != "attr" or b[1] != ("sym", "self") or sch[0] != "const":
-            run.undecided("C17.R1", init, None, "scheme branch %s pairs %s with %s" % ([show(c[0])[:40] for c in conds], show(b), show(sch)), kind="scheme-pair")
-            continue
-        f = project.funcs.get("%s.PyramidIO.%s" % (PYR, b[2]))
-        if f is None:
-            run.undecided("C17.R1", init, None, "path builder %s not found" % b[2], kind="builder-missing")
-            continue
-        run.note_func(f)
-        rb = ev.run(f.node)
-        if len(rb.returns) != 1:
-            run.undecided("C17.R1", f, None, "path builder has %d returns" % len(rb.returns), kind="builder-returns")
-            continue
-        ps = f.params()
-        LV, IX, IY = ("sym", ps[1]), ("sym", ps[2]), ("sym", ps[3])
-        FMT = ("op", "or", (("sym", "format"), ("attr", ("sym", "self"), "_default_format")))
-        tpl = template.template(rb.returns[0][1])
-        base = ("attr", ("sym", "self"), "_base_dir")
-        want = [("var", base), ("lit", "/")] + template.expand_scheme(sch[1], {1: LV, 2: IX, 3: IY}) + [("lit", "."), ("var", FMT)]
-        # merge adjacent literals of the expectation
-        wm = []
-        for k, v in want:
-            if k == "lit" and wm and wm[-1][0] == "lit":
-                wm[-1] = ("lit", wm[-1][1] + v)
-            else:
-                wm.append((k, v))
-        scheme_name = [show(c[0])[:50] for c in conds]
-        if tpl == wm:
-            # injectivity
-            adj = [i for i in range(len(tpl) - 1) if tpl[i][0] == "var" and tpl[i + 1][0] == "var"]
-            digits_sep = [i for i in range(1, len(tpl) - 1) if tpl[i][0] == "lit" and tpl[i - 1][0] == "var" and tpl[i + 1][0] == "var" and tpl[i][1].isdigit()]
-            if adj or digits_sep:
-                run.violated("C17.R1", f, None, "two numeric holes of the path %s are not separated by a non-digit literal: different positions can share one path" % template.render(tpl),
-                             kind="path-not-injective")
-            else:
-                run.holds("C17.R1", f, rb.returns[0][2], "path %s == base/ + expansion of scheme %r + '.' + format; holes separated by literals" % (template.render(tpl), sch[1]),
-                          scheme=sch[1])
-        else:
-            run.violated("C17.R1", f, rb.returns[0][2], "tiles are written to %s but the WTML template %r expands (with {1}=level, {2}=x, {3}=y) to %s: a WWT client "
-                         "substituting a position gets a different file than the one written for it" % (template.render(tpl), sch[1], template.render(wm)),
-                         kind="path-vs-template", scheme=sch[1])
-    if n_schemes < 2:
-        run.undecided("C17.R1", init, None, "only %d naming schemes found (2 confirmed by hand)" % n_schemes, kind="schemes")
     gs = project.fn(PYR + ".PyramidIO.get_path_scheme")
-    rg = ev.run(gs.node)
-    if not (len(rg.returns) == 1 and rg.returns[0][1] == ("attr", ("sym", "self"), "_scheme")):
-        run.violated("C17.R1", gs, None, "get_path_scheme does not return the scheme string paired with the path builder", kind="get-path-scheme")
+    run.note_func(init, tp, gs)
+    ev = sym.make_evaluator(project, PYR, [], inline_local=True)
+    ev.self_class = PYR + ".PyramidIO"
+    ev.inline_resolved = True
+    ev.no_inline = ("makedirs", "read_image", "write_image")
+    pos = ("sym", tp.params()[1])
+    grid = [(n, x, y) for n in (1, 11) for x in (0, 1, 11, 23) for y in (0, 1, 11, 23) if (x, y) != (0, 0)][:24] + [(0, 0, 0), (5, 3, 7), (12, 4000, 17)]
+    for S in SCHEMES:
+        ri = ev.run(init.node, args={"scheme": ("const", S), "default_format": ("const", "png")})
+        if [e for e in ri.events if e.kind == "raise" and not [c for c in e.pc if c[0] != "loop"]]:
+            run.undecided(rule, init, None, "PyramidIO(scheme=%r) raises: the documented scheme is gone" % S, kind="scheme-missing", scheme=S)
+            continue
+        facts = {k: v for k, v in (ri.env or {}).items() if isinstance(k, tuple) and k[0] == "attr" and k[1] == ("sym", "self")}
+        rt = ev.run(tp.node, env=facts, args={"makedirs": ("const", False)})
+        rg = ev.run(gs.node, env=facts)
+        rets = [r for r in rt.returns]
+        if len(rets) != 1 or len(rg.returns) != 1:
+            run.undecided(rule, tp, None, "scheme %r: tile_path has %d results, get_path_scheme %d" % (S, len(rets), len(rg.returns)), kind="path-shape", scheme=S)
+            continue
+        path_t, tmpl_t = rets[0][1], rg.returns[0][1]
+        verdict = None
+        # the template must not depend on where the pyramid lives: a plain directory name and one made of characters that
+        # also occur in tile names
+        tmpls = []
+        for base in ("B", "out/L1/1"):
+            tm = teval(tmpl_t, {("attr", ("sym", "self"), "_base_dir"): base, ("sym", init.params()[1]): base})
+            tmpls.append(tm)
+        if not all(isinstance(tm, str) for tm in tmpls):
+            run.undecided(rule, gs, None, "scheme %r: get_path_scheme() is %s, cannot be evaluated to a template" % (S, show(tmpl_t)[:80]), kind="template-shape", scheme=S)
+            continue
+        if tmpls[0] != tmpls[1]:
+            run.violated(rule, gs, rg.returns[0][2], "scheme %r: the WTML template depends on the pyramid's directory: %r for a pyramid in 'B' but %r for one in 'out/L1/1'" % (
+                S, tmpls[0], tmpls[1]), kind="template-depends-on-dir", scheme=S)
+            continue
+        tmpl = tmpls[0]
+        base_syms = {("attr", ("sym", "self"), "_base_dir"): "B", ("sym", init.params()[1]): "B"}
+        seen = {}
+        for fmt in (None, "fits"):
+            for (n, x, y) in grid:
+                envt = dict(base_syms)
+                envt.update({("attr", pos, "n"): n, ("attr", pos, "x"): x, ("attr", pos, "y"): y, ("sym", "format"): fmt})
+                got = teval(path_t, envt)
+                if got is UNKNOWN or got is RAISES or not isinstance(got, str):
+                    verdict = ("undecided", "cannot evaluate the path %s" % show(path_t)[:120])
+                    break
+                try:
+                    want = "B/" + tmpl.format(None, n, x, y) + "." + (fmt or "png")
+                except Exception:
+                    verdict = ("undecided", "the template %r cannot be expanded with {1}, {2}, {3}" % tmpl)
+                    break
+                import posixpath
+                if posixpath.normpath(got) != posixpath.normpath(want):
+                    verdict = ("violated", "path-vs-template", "with scheme %r the tile (n=%d, x=%d, y=%d)%s is stored at %s, but the WTML template %r that is published for the "
+                               "pyramid expands (with {1}=level, {2}=x, {3}=y) to %s: a client asking for a position gets another tile's file, or none" % (
+                                   S, n, x, y, "" if fmt is None else " in format %r" % fmt, got, tmpl, want))
+                    break
+                if fmt is None:
+                    if got in seen and seen[got] != (n, x, y):
+                        verdict = ("violated", "path-not-injective", "with scheme %r the tiles %s and %s share the path %s" % (S, seen[got], (n, x, y), got))
+                        break
+                    seen[got] = (n, x, y)
+            if verdict:
+                break
+        if verdict is None:
+            run.holds(rule, tp, rets[0][2], "scheme %r: tile_path(pos, format) == base/ + %r expanded with (level, x, y) + '.' + format on %d positions x 2 formats; paths distinct" % (
+                S, tmpl, len(grid)), scheme=S)
+        elif verdict[0] == "undecided":
+            run.undecided(rule, tp, rets[0][2], "scheme %r: %s" % (S, verdict[1]), kind="path-eval", scheme=S)
+        else:
+            run.violated(rule, tp, rets[0][2], verdict[2], kind=verdict[1], scheme=S)
+    run.holds(rule, gs, None, "get_path_scheme() evaluated together with tile_path under each scheme's constructor state")
 
 
 def _r2_builder(run):
